@@ -291,6 +291,31 @@ func Kernel(g *G, thor bool) []Program {
 					emit(M{"k": k, "mem": mem, "zo": zo, "xo": xo, "n": n, "s": s})
 				}
 			}
+			// sources longer than the destination, the destination a prefix of the source: how decKaratsubaAdd / Sub call
+			// add10VV(z[0:n], z, x), add10VW(z[n:n+n>>1], z[n:], c), sub10VW(...): the length is the destination's
+			if lay == "" {
+				for _, extra := range []int{1, 2, 5} {
+					for _, k := range []string{"add10VW", "sub10VW"} {
+						for _, y := range []string{"1", wordMax} {
+							x := vec(n+extra, 5)
+							for i := 0; i < n; i++ { // a carry / borrow that runs through the whole destination
+								if k == "add10VW" {
+									x[i] = wordMax
+								} else {
+									x[i] = "0"
+								}
+							}
+							mem := append(append([]any{"7"}, x...), "7")
+							emit(M{"k": k, "mem": mem, "zo": 1, "xo": 1, "n": n, "xn": n + extra, "y": y})
+						}
+					}
+					for _, k := range []string{"add10VV", "sub10VV"} {
+						x, y := vec(n+extra, 5), vec(n+extra, g.Pick(0, 5))
+						mem := append(append(append(append([]any{"7"}, x...), "7"), y...), "7")
+						emit(M{"k": k, "mem": mem, "zo": 1, "xo": 1, "yo": n + extra + 2, "n": n, "xn": n + extra, "yn": n + extra})
+					}
+				}
+			}
 			// shifts with the destination overlapping the source at an offset, the way dec.shl / dec.shr call them on one
 			// buffer: shl10VU writes k words ABOVE the words it reads, shr10VU k words BELOW (memmove semantics)
 			if lay == "" && n > 0 {
